@@ -276,6 +276,7 @@ func codec(h *history, id, n int, sub uint64) {
 		if simrt.Dead() {
 			return
 		}
+		simrt.Progress()
 		up := r.Intn(2) == 0
 		switch k := r.Intn(10); {
 		case k < 3:
